@@ -102,8 +102,15 @@ def run(ch: Checker) -> None:
             res['call'] = 'build() does not return build_http_request(...)'
             continue
         c = calls[0]
-        args = [norm(sym.value(a, last[0])) for a in c.args]
-        kw = {k.arg: k.value for k in c.keywords}
+        # arguments by parameter name of build_http_request: positional and keyword spelling are one call
+        from .common import bound_args
+        ba = bound_args(prog, b, c)
+        if ba is not None and all(k_ in ba for k_ in ('method', 'url', 'protocol_version')):
+            args = [norm(sym.value(ba[k_], last[0])) for k_ in ('method', 'url', 'protocol_version')]
+            kw = dict(ba)
+        else:
+            args = [norm(sym.value(a, last[0])) for a in c.args]
+            kw = {k.arg: k.value for k in c.keywords}
         if not (len(args) >= 3 and args[0] == 'self.method' and args[2] == 'self.version'):
             res['line'] = 'method/version handed to the builder are %s / %s' % (args[0] if args else '?', args[2] if len(args) > 2 else '?')
         if len(args) >= 2 and args[1] not in ("self.path or b'/'",):
@@ -188,7 +195,18 @@ def run(ch: Checker) -> None:
         return [e]
 
     def _is_header_call(e: ast.AST, kname: str, vname: str) -> bool:
-        return isinstance(e, ast.Call) and attr_chain(e.func) == 'build_http_header' and len(e.args) == 2 and norm(e.args[0]) == kname and norm(e.args[1]) == vname
+        if not (isinstance(e, ast.Call) and attr_chain(e.func) == 'build_http_header'):
+            return False
+        from .common import bound_args
+        ba_ = bound_args(prog, bp, e)
+        if ba_ is not None and len(ba_) == 2:
+            vals_ = list(ba_.values())
+            ps_ = list(ba_.keys())
+            a_ = getattr(prog.function('proxy.common.utils', 'build_http_header'), 'node').args
+            order_ = [x.arg for x in a_.args]
+            if set(ps_) == set(order_[:2]):
+                return norm(ba_[order_[0]]) == kname and norm(ba_[order_[1]]) == vname
+        return len(e.args) == 2 and norm(e.args[0]) == kname and norm(e.args[1]) == vname
 
     for p in fpaths(gp):
         if p.exit_kind != 'return':
